@@ -53,11 +53,17 @@ Record cfg := mkCfg {
   g_reg_topics : bool;       (* connectCallback: REGISTER topic "" for a topic without channels *)
   g_reg_chans : bool;        (* connectCallback: REGISTER topic channel for every channel *)
   g_skip_exiting : bool;     (* connectCallback: topics / channels with Exiting() are not registered *)
+  g_bare_no_live : bool;     (* connectCallback: REGISTER topic "" when NO LIVE channel was registered (not only when the map is empty) *)
   g_unreg_topic : bool;      (* lookupLoop: topic.Exiting() -> UNREGISTER, else REGISTER *)
   g_unreg_chan : bool;       (* lookupLoop: channel.Exiting() -> UNREGISTER, else REGISTER *)
   g_precreate_first : bool;  (* GetTopic: lookupd channels are created before t.Start() *)
-  g_skip_eph : bool          (* GetTopic: #ephemeral channels are not pre-created *)
+  g_skip_eph : bool;         (* GetTopic: #ephemeral channels are not pre-created *)
+  g_partial_query : bool     (* GetLookupdTopicChannels: the answering lookupds' channels are used even if others fail *)
 }.
+
+#[export] Instance eta_cfg : Settable _ :=
+  settable! mkCfg <g_neg; g_limit; g_max; g_close; g_reg_topics; g_reg_chans; g_skip_exiting; g_bare_no_live;
+                   g_unreg_topic; g_unreg_chan; g_precreate_first; g_skip_eph; g_partial_query>.
 
 Definition repo_cfg : cfg :=
   mkCfg nsqd_rrb_refuses_negative nsqd_rrb_refuses_over_limit nsqd_opt_MaxBodySize
@@ -69,12 +75,15 @@ Definition repo_cfg : cfg :=
          && nsqd_loop_reconfigure_closes_removed)
         nsqd_cc_registers_empty_topics nsqd_cc_registers_channels
         (nsqd_cc_skips_exiting_topics && nsqd_cc_skips_exiting_channels)
+        nsqd_cc_bare_topic_when_no_live_channel
         nsqd_loop_topic_exiting_unregisters nsqd_loop_channel_exiting_unregisters
-        nsqd_gettopic_precreates_before_start nsqd_gettopic_skips_ephemeral.
+        nsqd_gettopic_precreates_before_start nsqd_gettopic_skips_ephemeral
+        (clusterinfo_topicchannels_fails_only_when_all_fail && clusterinfo_topicchannels_returns_partial_result
+         && nsqd_gettopic_uses_partial_result).
 
 Definition good_cfg (c : cfg) : Prop :=
   g_neg c = true /\ g_close c = true /\ g_reg_topics c = true /\ g_reg_chans c = true /\
-  g_skip_exiting c = true /\
+  g_skip_exiting c = true /\ g_bare_no_live c = true /\ g_partial_query c = true /\
   g_unreg_topic c = true /\ g_unreg_chan c = true /\ g_precreate_first c = true /\
   g_skip_eph c = true /\ (16 <= g_max c)%Z.
 
@@ -302,7 +311,8 @@ Definition registrations (c : cfg) (l : list obj) : list cmd :=
     let o := getO l i in
     if is_topic o && o_map o && negb (g_skip_exiting c && o_exit o) then
       match reg_chans c l i with
-      | [] => if g_reg_topics c then [CReg (KT (o_t o))] else []
+      | [] => if g_reg_topics c && (g_bare_no_live c || match chans_of l i with [] => true | _ => false end)
+              then [CReg (KT (o_t o))] else []
       | js => if g_reg_chans c then map (fun j => CReg (KC (o_t (getO l j)) (o_c (getO l j)))) js else []
       end
     else []) (ids l).
@@ -386,11 +396,16 @@ Definition get_channel (p : nat) (c : N) (x : dstate) : dstate :=
 Definition mem (i : nat) (l : list nat) : bool := existsb (Nat.eqb i) l.
 
 (* what GetLookupdTopicChannels returns: the union over the peers whose HTTP address is
-   known and whose nsqlookupd answers *)
-Definition query (ls : list link) (t : N) : list N :=
+   known and whose nsqlookupd answers; [query_fails]: some asked nsqlookupd did not answer *)
+Definition asked (k : link) : bool := k_conf k && k_info k.
+Definition answers (k : link) : bool := l_up k && l_http k.
+Definition query_union (ls : list link) (t : N) : list N :=
   flat_map (fun k =>
-    if k_conf k && k_info k && l_up k && l_http k
+    if asked k && answers k
     then map snd (filter (fun tc => N.eqb (fst tc) t) (l_known k)) else []) ls.
+Definition query_fails (ls : list link) : bool := existsb (fun k => asked k && negb (answers k)) ls.
+Definition query (c : cfg) (ls : list link) (t : N) : list N :=
+  if g_partial_query c || negb (query_fails ls) then query_union ls t else [].
 
 Definition topic_advance (c : cfg) (ls : list link) (t : N) (x : dstate) : dstate :=
   match find_topic (x_objs x) t with
@@ -399,7 +414,7 @@ Definition topic_advance (c : cfg) (ls : list link) (t : N) (x : dstate) : dstat
       let d := getD (x_dats x) i in
       match d_pc d with
       | O =>
-          let chans := filter (fun ch => negb (g_skip_eph c && eph ch)) (query ls t) in
+          let chans := filter (fun ch => negb (g_skip_eph c && eph ch)) (query c ls t) in
           set_dat i (fun d => d <| d_pc := 1 |> <| d_todo := chans |> <| d_want := chans |>
                                <| d_started := (if g_precreate_first c then d_started d else true) |>) x
       | S O =>
